@@ -263,6 +263,15 @@ func (m *monC04) OnObs(w *World, o *Obs) {
 		}
 		return
 	}
+	if o.Pay.Cln != nil {
+		// tier 3: the route the real clightning adapter handed to sendpay; lightningd sends the
+		// HTLC with exactly this delay, so the route's delay is the total the request permits
+		w.Probe("C04:cln-route-checked")
+		if o.Pay.Cln.Delay > 32 {
+			w.Violate("C04", fmt.Sprintf("route-limit-%d", o.Pay.Cln.Delay), "node %d sent a liquid claim payment along a route with a total CLTV delay of %d blocks, the maximum is 32", o.Node, o.Pay.Cln.Delay)
+		}
+		return
+	}
 	if o.Pay.MaxCLTV != 32 {
 		w.Violate("C04", fmt.Sprintf("route-limit-%d", o.Pay.MaxCLTV), "node %d attempted a liquid claim payment with a total route CLTV limit of %d (must be 32)", o.Node, o.Pay.MaxCLTV)
 	}
